@@ -1,5 +1,6 @@
 // C05: changing representation preserves the field.
 // One shard = one SOURCE storage order (SH_SRC); targets vary inside.
+#include <cmath>
 #include <cstdint>
 #include <limits>
 #include <variant>
@@ -52,6 +53,26 @@ static uint64_t storage_len(const sc::ext_t<N> & e)
     return L == L_STRIDED ? sc::cells<N>(e) : sc::curve_len<N>(e);
 }
 
+// some cells hold values that a value-preserving copy must carry over unchanged but a careless one loses: NaN, negative
+// zero, an infinity (a measured map with holes)
+template <typename S>
+static S special_or(uint64_t k, S ordinary)
+{
+    if constexpr (std::is_floating_point_v<S>) {
+        if (k % 9 == 4) return std::numeric_limits<S>::quiet_NaN();
+        if (k % 9 == 7) return (S)-0.0;
+        if (k % 11 == 5) return -std::numeric_limits<S>::infinity();
+        if (k % 13 == 8) return (S)0.0;
+    }
+    return ordinary;
+}
+template <typename A, typename B>
+static bool same_value(A a, B b)
+{
+    if (a != a || b != b) return a != a && b != b;
+    return a == b && std::signbit(a) == std::signbit(b);
+}
+
 // fill through the view with a unique id per cell component; returns the model
 template <typename F, std::size_t N, typename S, std::size_t M>
 static std::vector<S> fill(F & f, const sc::ext_t<N> & e, uint64_t id0)
@@ -64,7 +85,7 @@ static std::vector<S> fill(F & f, const sc::ext_t<N> & e, uint64_t id0)
         for (std::size_t k = 0; k < N; ++k) cc[k] = c[k];
         uint64_t p = sc::model_pos<N>(c, e);
         for (std::size_t j = 0; j < M; ++j) {
-            S val = (S)(id0 + p * M + j);
+            S val = special_or<S>(p * M + j, (S)(id0 + p * M + j));
             v.at(cc)[j] = val;
             model[p * M + j] = val;
         }
@@ -84,7 +105,7 @@ static std::string differs(const F & f, const sc::ext_t<N> & e, const std::vecto
         uint64_t p = sc::model_pos<N>(c, e);
         for (std::size_t j = 0; j < M; ++j) {
             vh::ev();
-            if (!(v.at(cc)[j] == model[p * M + j]))
+            if (!same_value(v.at(cc)[j], model[p * M + j]))
                 return "c=" + vh::jarr(c, N) + " component " + std::to_string(j) + " holds " + std::to_string((double)v.at(cc)[j]) + ", source holds " + std::to_string((double)model[p * M + j]);
         }
     } while (sc::next_coord<N>(c, e));
